@@ -11,11 +11,13 @@ def dist_diff(triplets, basis):
   return ab - ac
 
 
-def run(triplets, basis, batches, beta, gamma, output_iter, delta=0.001, tie=1e-9):
+def run(triplets, basis, batches, beta, gamma, output_iter, delta=0.001, tie=1e-9, batch_size=None):
   """Returns dict(w, M, ties, n_checkpoints, active)."""
   T = dist_diff(triplets, basis)
   n_t, n_b = T.shape
   max_iter, batch = batches.shape
+  if batch_size is not None:
+    batch = batch_size          # the documented divisor, whatever was drawn
   w = np.zeros(n_b)
   avg = np.zeros(n_b)
   ada = np.zeros(n_b)
